@@ -40,6 +40,7 @@ func runC04(c *Ctx) {
 	smudgeToFileRule(c, "R9")
 	pathspecSeparatorRule(c, "R10")
 	delayedPointersSurviveRounds(c, "R8")
+	treeListingsCoverWholeTree(c, "R7")
 	run := p.Fn("commands", "(*singleCheckout).Run")
 	if run == nil {
 		c.Missing("R1", "(*singleCheckout).Run", "not found")
